@@ -168,6 +168,7 @@ def _child(case, ex, workdir, wfd):
             outcome["status"] = "exception"
             outcome["exc"] = {"type": type(e).__name__, "msg": str(e)[:300],
                               "where": "worker-task" if remote else "parent",
+                              "frame": (remote or {}).get("frame", ""),
                               "tb": "".join(traceback.format_exception(type(e), e, e.__traceback__))[-1500:]}
         outcome["short_reads"] = sum(o.short_reads for o in stream_objs)
         outcome["stream_reads"] = sum(o.reads for o in stream_objs)
